@@ -400,6 +400,31 @@ func (x *Exec) loopBack(fr *frame, li *loopInfo, st *State) {
 	}
 }
 
+// rootModLocs evaluates the modifies clauses of the entry function at its entry state.
+func (x *Exec) rootModLocs() []*LocV {
+	if x.rootLocsDone {
+		return x.rootLocs
+	}
+	x.rootLocsDone = true
+	root := x.root
+	if root == nil || root.con == nil || root.entrySt == nil {
+		return nil
+	}
+	env := &Env{x: x, st: root.entrySt, vars: map[string]Value{}, ovars: root.params}
+	for k, v := range root.params {
+		env.vars[k] = v
+	}
+	if root.fn.Pkg != nil {
+		env.pkg = root.fn.Pkg.Pkg
+	}
+	for _, me := range root.con.Modifies {
+		if l, err := x.evalLoc(env, me); err == nil {
+			x.rootLocs = append(x.rootLocs, l...)
+		}
+	}
+	return x.rootLocs
+}
+
 // autoCandidates proposes frame and bound invariants for a loop; they are assumed under
 // guard literals and checked (entry trivially holds by construction, preservation at
 // every back edge) by the Houdini filter in solveAll.
@@ -444,6 +469,12 @@ func (x *Exec) autoCandidates(fr *frame, li *loopInfo, pre, st *State, entryAllo
 					for _, p := range root.fn.Params {
 						if pp := ptrKeyPrefix(p.Type()); pp != "" && strings.HasPrefix(key, pp) {
 							excl = append(excl, fmt.Sprintf("(not (= r %s))", root.params[p.Name()].Term().S))
+						}
+					}
+					// ... and except what the contract's frame lists explicitly
+					for _, l := range x.rootModLocs() {
+						if base, _ := l.pathKey(); strings.HasPrefix(key, base) {
+							excl = append(excl, fmt.Sprintf("(not (= r %s))", l.Ref.S))
 						}
 					}
 					fa := root.entrySt.alloc
